@@ -11,7 +11,7 @@ pub struct C11;
 
 const FR: &[&str] = &[
     " ", " ", "\n", "\t", ";", ";", "a", "b1", "_x", "x", "e", "d", "1", "12", "2.5", "1e3", "1e", "1e+", "0fx", "0f", ".", ".5", "..", "'s'", "'it''s'", "\"d\"", "\"", "'", "''", "\"\"", "/*c*/", "/*", "*/", "*", "**", "* c;",
-    "&", "&&", "% ", "%", "(", ")", ",", "=", "=*", "/", "datalines;", "cards4;", "datalines", "lines", "CARDS ;", "lines4 ;", "datalines\u{a0};", "cards\u{2003} ;", "lines4\u{85};", "Cards\t\u{3000};", "datalines\n;", ";;;;", ";;", "$f.", "$", "$12.", "$é3.2", "$a1b2.3", "$fmtü5.", "$f𠀀.", "$тест.", "$a€b12.3", "eq", "ne", "and", "or", "not", "in", "lt", "+", "-",
+    "&", "&&", "% ", "%", "(", ")", ",", "=", "=*", "/", "datalines;", "cards4;", "datalines", "lines", "CARDS ;", "lines4 ;", "datalines\u{a0};", "cards\u{2003} ;", "lines4\u{85};", "Cards\t\u{3000};", "datalines\n;", ";;;;", ";;", "$f.", "$", "$12.", "$é3.2", "$a1b2.3", "\u{903}", "\u{345}", "\u{24b6}", "\u{2118}", "\u{212e}", "\u{b7}", "\u{301}", "\u{663}", "\u{b2}", "\u{bd}", "\u{2167}", "\u{200b}", "\u{180e}", "\u{212a}", "\u{17f}", "\u{130}", "\u{131}", "\u{df}", "\u{1c5}", "\u{fb01}", "\u{85}", "\u{17f}et", "\u{212a}eep", "%\u{24b6}", "&\u{24b6}", "%\u{903}", "&\u{903}", "x\u{301}", "\u{903}y", "\u{2118}x", "e\u{301}q", "%\u{2118}(", "&\u{212e}.", "\u{b2}x", "x\u{b2}", "1\u{663}", "run\u{b7}", "\u{130}f", "%\u{131}f", "%\u{17f}tr(", "data\u{200b}", "$fmtü5.", "$f𠀀.", "$тест.", "$a€b12.3", "eq", "ne", "and", "or", "not", "in", "lt", "+", "-",
     "<", ">", "<=", ">=", "<>", "><", "|", "||", "^=", "^", "~", "¬", "¬=", "∘", "∘=", "#", "'41'x", "\"4a\"X", "'4'x", "'4,1'x", "'+1'x", "''x", "b", "dt", "n", "t", "é", "😀", "\u{a0}", "\u{2028}", ":", "data", "run", "proc", "_null_",
     "_all_", "corr", "corresponding", "exec", "1x", "{", "}", "[", "]", "?", "@", "!", "!!", "¦", "¦¦", "\r\n", "\\", "`", "\u{1}", "E5", "+5", "-3", "fx", "X", "18446744073709551615", "18446744073709551616", "0FFFFFFFFFFFFFFFFx",
     "0FFFFFFFFFFFFFFFFFx", "123456789012345678901", "1.5e", "1.e5", "1.x", "9a", "9ax", "é1", "a.b", "a-b", "x=1;", "input", "put", "format", "lt=", "ge", "le", "gt",
